@@ -319,20 +319,20 @@ func tmplParseSource(src string) (*template.Template, error) {
 // data
 
 type tOffset struct {
-	nilp              bool
+	nilp                bool
 	off, order, ts, obs int64
-	lag               int64 // -1 = nil
+	lag                 int64 // -1 = nil
 }
 
 type tPart struct {
-	nilp         bool
-	topic        string
-	partition    int32
+	nilp          bool
+	topic         string
+	partition     int32
 	owner, client string
-	status       int
-	start, end   tOffset
-	curlag       uint64
-	complete     uint32
+	status        int
+	start, end    tOffset
+	curlag        uint64
+	complete      uint32
 }
 
 type tData struct {
@@ -546,6 +546,62 @@ func tmplParallel(t *template.Template, d tData, extras map[string]string, start
 	return "same"
 }
 
+// tmplHelpers runs the two partition helpers of the notifier's template function map on the partition list of the
+// case — through a template, as a user's template would — and prints what they returned, sorted.
+var tmplHelperT *template.Template
+
+func tmplHelpers(status *protocol.ConsumerGroupStatus, extras map[string]string, id string, start time.Time) string {
+	if tmplHelperT == nil {
+		t, err := tmplParseSource("{{topicsbystatus .Result.Partitions | jsonencoder}}\x00{{partitioncounts .Result.Partitions | jsonencoder}}")
+		if err != nil {
+			return "parse-error"
+		}
+		tmplHelperT = t
+	}
+	var out *bytes.Buffer
+	var err error
+	func() {
+		defer func() {
+			if rec := recover(); rec != nil {
+				err = fmt.Errorf("panic: %v", rec)
+			}
+		}()
+		out, err = verifhook.ExecuteTemplate(tmplHelperT, extras, status, id, start)
+	}()
+	if err != nil {
+		return "err"
+	}
+	halves := strings.SplitN(out.String(), "\x00", 2)
+	if len(halves) != 2 {
+		return "bad-output"
+	}
+	var tbs map[string][]string
+	var pc map[string]int
+	if json.Unmarshal([]byte(halves[0]), &tbs) != nil || json.Unmarshal([]byte(halves[1]), &pc) != nil {
+		return "bad-json"
+	}
+	var es []string
+	for st, topics := range tbs {
+		hs := make([]string, len(topics))
+		for i, t := range topics {
+			hs[i] = hx(t)
+		}
+		sort.Strings(hs)
+		es = append(es, st+":"+strings.Join(hs, ","))
+	}
+	sort.Strings(es)
+	a := strings.Join(es, ";")
+	if a == "" {
+		a = "-"
+	}
+	var cs []string
+	for k, n := range pc {
+		cs = append(cs, fmt.Sprintf("%s:%d", k, n))
+	}
+	sort.Strings(cs)
+	return a + "|" + strings.Join(cs, ",")
+}
+
 // ---------------------------------------------------------------------------------------------
 // run
 
@@ -619,8 +675,9 @@ func runTmpl(r *runner) {
 			}()
 			out, err = verifhook.ExecuteTemplate(t, extras, status, d.id, start)
 		}()
+		hlp := tmplHelpers(status, extras, d.id, start)
 		if err != nil {
-			r.reply("r=err gen=%s", gen)
+			r.reply("r=err gen=%s hlp=%s", gen, hlp)
 			continue
 		}
 		jv := "invalid"
@@ -633,7 +690,7 @@ func runTmpl(r *runner) {
 			// evaluation in its own goroutine) must each equal the rendering of their own data done alone
 			par = " par=" + tmplParallel(t, d, extras, start)
 		}
-		r.reply("r=ok out=%s json=%s gen=%s%s", hx(out.String()), jv, gen, par)
+		r.reply("r=ok out=%s json=%s gen=%s%s hlp=%s", hx(out.String()), jv, gen, par, hlp)
 	}
 }
 
